@@ -4,6 +4,7 @@ from .. import gen, core
 from ..real import hex6
 
 ID = "C12"
+STATEFUL = True     # some blocks keep a live object across lines
 LEAN_TARGETS = ["Cider.Props.C12"]
 P = "Cider.C12."
 THEOREMS = [P + t for t in (
@@ -60,6 +61,29 @@ def cases(rng, tier):
         d = dict(base)
         del d[key]
         yield Case(["q reduce %s 20 %s" % ("MDEDSTRHKDDAGSY", utok(d))], {"kind": "user-alphabet-missing-key"})
+    # dictionaries with MORE than the 20 keys: an extra key that is itself used as a target / is a valid or invalid symbol
+    for sym in ["X", "B", "k", "-", "Z", "1", "AA"]:
+        for key in ("G", "S", "K", "W", "A"):
+            for extra_val in ("A", sym):
+                d = dict(base)
+                d[key] = sym
+                d[sym] = extra_val
+                yield Case(["q reduce %s 20 %s" % ("MKGSTAGGWYHHEDNQRKLIVFPC", utok(d))], {"kind": "user-alphabet-extra-key"})
+        d = dict(base)
+        d[sym] = "A"
+        yield Case(["q reduce %s 20 %s" % ("MKGSTAGGWYHHEDNQRKLIVFPC", utok(d))], {"kind": "user-alphabet-extra-key"})
+    # several reductions on ONE object: the answer to each call is that of a fresh object (size / user alphabet of an
+    # earlier call must not matter)
+    hp = {a: ("E" if a in "EDNQKRH" else "L") for a in gen.AAS}
+    kr = dict(base, R="K")
+    part = {a: a for a in "ACDEF"}
+    bogus = dict(base, G="X")
+    pool = [("20", "-"), ("20", utok(hp)), ("20", utok(kr)), ("5", "-"), ("5", utok(kr)), ("2", "-"), ("20", utok(part)), ("20", utok(bogus)),
+            ("12", "-"), ("7", "-"), ("8", utok(hp))]
+    for _ in range(40 if tier == "quick" else 400):
+        sq = gen.rand_seq(rng, rng.choice(gen.KINDS), rng.randint(5, 40))
+        calls = [rng.choice(pool) for _ in range(rng.randint(2, 5))]
+        yield Case(["new 0 " + sq] + ["o 0 reduce %s %s" % c for c in calls], {"kind": "same-object-history"})
 
 
 def judge(case, reals, gens, specs):
